@@ -117,3 +117,6 @@ Definition expected_xtype (cfg : follow) (depth : nat) (v : osview) : option sta
 Definition coherent (v : osview) : Prop := is_lnk (st_type (v_lstat v)) = false -> v_stat v = SOk (v_lstat v).
 (* and the target of a resolvable link is not itself a link *)
 Definition resolved_ok (v : osview) : Prop := forall r, v_stat v = SOk r -> is_lnk (st_type r) = false.
+
+(* -printf %l (format_directive, SymlinkTarget): file_type().is_symlink() decides, as for -lname *)
+Definition printf_l_applies := lname_applies.
